@@ -28,6 +28,12 @@ Hidden(tag, t) == [tag |-> tag, exported |-> FALSE, emb |-> FALSE, t |-> t]
 \* one, left alone when it has none; the fields Go promotes from it are NOT fields of the outer struct (FillStruct never looks at emb)
 Embedded(tag, t) == [tag |-> tag, exported |-> TRUE, emb |-> TRUE, t |-> t]
 EmbeddedUntagged(t) == [tag |-> [op |-> "none"], exported |-> TRUE, emb |-> TRUE, t |-> t]
+\* a RECURSIVE declared type (Go: type Dir struct { Id string `xsel:"@id"`; Dirs []Dir `xsel:"child::*"` }): inside its own
+\* definition the type is referred to by name; filling it ends with the document, not with the type
+Ref(n) == [k |-> "ref", n |-> n]
+DirT == Declared("Dir", << Field([op |-> "path", abs |-> FALSE, steps |-> <<[ax |-> "attribute", test |-> [k |-> "name", pre |-> "", lo |-> <<"i","d">>], preds |-> <<>>]>>], Prim("string")),
+                           Field([op |-> "path", abs |-> FALSE, steps |-> <<[ax |-> "child", test |-> [k |-> "any"], preds |-> <<>>]>>], Slice(Ref("Dir"))) >>)
+RefType(n) == IF n = "Dir" THEN DirT ELSE [k |-> "unknown-ref"]
 RECURSIVE StripPtr(_)
 StripPtr(t) == IF t.k = "ptr" THEN StripPtr(t.e) ELSE t
 
@@ -65,10 +71,11 @@ FillStruct(d, env, fs, n) ==
   IN IF HasErr(gs) THEN SeqErr(gs) ELSE [k |-> "rec", f |-> gs]
 \* rev: the node-set r may arrive in descending order (see MayRev); a "list" then carries rev |-> TRUE and is matched in either orientation
 FillValue(d, env, T, r, rev) ==
-  CASE T.k = "prim" -> PrimOf(d, T.p, r)
+  CASE T.k = "ref" -> FillValue(d, env, RefType(T.n), r, rev)
+    [] T.k = "prim" -> PrimOf(d, T.p, r)
     [] T.k = "ptr" -> FillValue(d, env, T.e, r, rev)         \* freshly allocated; the harness looks through pointers
     [] T.k = "slice" ->
-         LET el == StripPtr(T.e) IN
+         LET el == IF StripPtr(T.e).k = "ref" THEN RefType(StripPtr(T.e).n) ELSE StripPtr(T.e) IN
          IF el.k = "slice" THEN UErr("multi-dimensional-slice")
          ELSE IF el.k \notin {"prim", "struct"} THEN UErr("unsupported-element")
          ELSE IF r.t # "ns" THEN UErr("slice-needs-node-set")
